@@ -282,6 +282,9 @@ def build_c(unit, units, outdir, defines=()):
         if any(re.search(r'\b%s_erase_at\s*\(' % re.escape(vn), rendered[n]['body'] or '') for n in allu):
             parts.append('size_t gh_e_%s;\nVEC_SHIMS_ERASE(%s, %s)' % (vn, vn, el))
             shim_ghosts.append(('size_t', 'gh_e_' + vn))
+        if any(re.search(r'\b%s_resize_fill\s*\(' % re.escape(vn), rendered[n]['body'] or '') for n in allu):
+            parts.append('size_t gh_f_%s;\nVEC_SHIMS_FILL(%s, %s)' % (vn, vn, el))
+            shim_ghosts.append(('size_t', 'gh_f_' + vn))
         if any(re.search(r'\b%s_sort_(asc|desc)\s*\(' % re.escape(vn), rendered[n]['body'] or '') for n in allu):
             parts.append('VEC_SHIMS_SORT(%s, %s)' % (vn, el))
     for sname, members in shared['selfs'].items():
@@ -365,7 +368,7 @@ def instrument(unit, units, b, outdir, defines=(), tag=''):
     replace = []
     cand = list(b['used']) + unit.get('replace', [])
     for vt in b['vec_types']:
-        cand += [vt + '_grow', vt + '_ctor_n'] + ([] if unit.get('unwind') else [vt + '_erase_at', vt + '_sort_desc', vt + '_sort_asc'])
+        cand += [vt + '_grow', vt + '_ctor_n'] + ([] if unit.get('unwind') else [vt + '_erase_at', vt + '_sort_desc', vt + '_sort_asc', vt + '_resize_fill'])
     body_txt = ctext[ctext.index('/* ---- function under verification'):]
     for mm in re.finditer(r'/\* inlined from the real source: .*?(?=\n/\* (?:inlined|used|----|prelude))', ctext, re.S):
         body_txt += mm.group(0)
